@@ -23,7 +23,7 @@ RULE = ('Two generated families. Files: an independent SIGPROC writer produces f
 ASSUMPTIONS = ['blimpy is the container reader used by the library; the independent writer is the reference for content',
                'tile model: tile (ky,kx) = data[ky*ts : min(tn+ky*ts, H), kx*fs : min(fn+kx*fs, W)] until the stop reaches the edge']
 REQUIRED_CLASSES = ['kind=file', 'kind=array', 'exact_multiple', 'remainder', 'single_piece', 'foff<0', 'foff>0', 'ragged_untrimmed',
-                    'trimmed', 'shift=size', 'shift!=size', 'split_fil', 'distributions']
+                    'trimmed', 'shift=size', 'shift!=size', 'split_fil', 'distributions', 'earlier=same_path', 'earlier=same_outdir']
 
 FOFFS = [2.7939677238464355e-6, 1e-6, 1e-7, 3.3e-6, 1e-3 / 3]
 FCH1S = [1000.0, 6095.214842353016, 8400.5, 1420.40575]
@@ -50,7 +50,8 @@ def strategy_(draw, tier):
                     tchans=draw(st.one_of(st.none(), st.integers(1, nints))),
                     fch1=draw(st.sampled_from(FCH1S)), foff=draw(st.sampled_from(FOFFS)) * draw(st.sampled_from([1, -1])),
                     tsamp=draw(st.sampled_from([18.253611008, 1.0, 0.1])),
-                    extra=draw(st.sampled_from(['none', 'none', 'split_fil', 'dist'])))
+                    extra=draw(st.sampled_from(['none', 'none', 'split_fil', 'dist'])),
+                    earlier=draw(st.sampled_from([None, None, 'same_path', 'same_outdir'])))
     H, W = draw(st.integers(1, 40)), draw(st.integers(1, 40))
     same = draw(st.booleans())
     fn = draw(st.one_of(st.none(), st.integers(1, W + 3)))
@@ -134,6 +135,27 @@ def run_case(case, ctx):
     tch = case['tchans'] if case['tchans'] is not None else nints
     content = (1000.0 * np.arange(nints)[:, None] + np.arange(nch)[None, :]).astype(np.float32)
     path = ctx.path('band.fil')
+    outdir = ctx.path('pieces')
+    earlier = case.get('earlier')
+    if earlier:
+        # the same file name (or the same output directory) was used before in this session for ANOTHER observation
+        obs.cls('earlier=' + earlier)
+        nch0 = max(fch + 3, nch // 2 + 1)
+        c0 = (5000.0 + 1000.0 * np.arange(nints + 1)[:, None] + np.arange(nch0)[None, :]).astype(np.float32)
+        p0 = path if earlier == 'same_path' else ctx.path('other.fil')
+        ref_sigproc.write_fil(p0, c0, case['fch1'] + 123.0, -case['foff'], case['tsamp'])
+        try:
+            if earlier == 'same_path':
+                list(stg.split_waterfall_generator(p0, fch, tchans=None, f_shift=case['shift']))
+                stg.get_fs(p0), stg.get_ts(p0)
+            else:
+                stg.split_fil(p0, outdir, fch, tchans=None, f_shift=case['shift'])
+        except BaseException as exc:
+            who, where = core.classify_exception(exc)
+            if who != 'setigen':
+                raise
+            obs.fail('raises:earlier_use:' + where, repr(exc)[:200])
+            return obs
     ref_sigproc.write_fil(path, content, case['fch1'], case['foff'], case['tsamp'])
     npieces = (nch - fch) // shift + 1
     obs.cls('kind=file', 'foff<0' if case['foff'] < 0 else 'foff>0',
@@ -176,7 +198,6 @@ def run_case(case, ctx):
             break
     if case['extra'] == 'split_fil':
         obs.cls('split_fil')
-        outdir = ctx.path('pieces')
         ok, fns = core.call(obs, 'split_fil', stg.split_fil, path, outdir, fch, tchans=case['tchans'], f_shift=case['shift'])
         if ok:
             if len(fns) != npieces:
